@@ -51,6 +51,8 @@ var repoConfigs = []string{
 	"self-hosted-runner:\n  labels:\n    - linux-*\n    - gpu\nconfig-variables:\n  - FOO\n  - BAR\n",
 	"self-hosted-runner:\n  labels: [bogus-*]\nconfig-variables: []\n",
 	"self-hosted-runner:\n  labels: [other-unknown]\nconfig-variables:\n  - ZED\n  - ALPHA\n  - NOPE\n",
+	// a label pattern that is not a valid glob (reported by the runner-label rule wherever a custom label is checked)
+	"self-hosted-runner:\n  labels: ['gpu-[', 'linux-*', 'x[']\n",
 }
 
 var pathConfigs = []string{
